@@ -168,7 +168,7 @@ fn distinct_inner(
     use Transform::*;
 
     let mut res = Vec::new();
-    for transform in pipeline.clone() {
+    for (position, transform) in pipeline.clone().into_iter().enumerate() {
         match transform {
             Super(Take(rq::Take { ref partition, .. })) if partition.is_empty() => {
                 res.push(transform);
@@ -190,7 +190,10 @@ fn distinct_inner(
                 // Check whether the columns within the partition are the same
                 // as the columns in the table; otherwise we can't use DISTINCT.
                 let columns_in_frame = ctx.anchor.determine_select_columns(&pipeline.clone());
-                let matching_columns = vecs_contain_same_elements(&columns_in_frame, &partition);
+                let matching_columns = vecs_contain_same_elements(&columns_in_frame, &partition)
+                    // ... and nothing behind the take may use any other column: it would be
+                    // carried into the SELECT DISTINCT and split the groups
+                    && only_these_used(&pipeline[position + 1..], &partition, ctx);
 
                 if take_only_first && sort.is_empty() && matching_columns {
                     // DISTINCT
@@ -220,6 +223,34 @@ fn distinct_inner(
         }
     }
     Ok(res)
+}
+
+/// True if the transforms use only `allowed` columns and columns they define themselves.
+fn only_these_used(transforms: &[SqlTransform], allowed: &[CId], ctx: &Context) -> bool {
+    let mut defined: HashSet<CId> = HashSet::new();
+    for t in transforms {
+        match t {
+            SqlTransform::Super(Transform::Compute(compute)) => {
+                defined.insert(compute.id);
+            }
+            SqlTransform::Join { with, .. } => {
+                let with = ctx.anchor.relation_instances.get(with).unwrap();
+                defined.extend(with.table_ref.columns.iter().map(|(_, c)| *c));
+            }
+            _ => {}
+        }
+    }
+    let used = |t: &SqlTransform| match t {
+        SqlTransform::Super(t) => CidCollector::collect_t(t.clone()).1,
+        SqlTransform::Join { filter, .. } => CidCollector::collect(filter.clone()),
+        SqlTransform::Sort(sorts) => sorts.iter().map(|s| s.column).collect(),
+        SqlTransform::DistinctOn(cids) => cids.clone(),
+        _ => Vec::new(),
+    };
+    transforms
+        .iter()
+        .flat_map(used)
+        .all(|c| allowed.contains(&c) || defined.contains(&c))
 }
 
 fn into_column_sort(partition: &[CId]) -> Vec<ColumnSort<CId>> {
